@@ -256,3 +256,41 @@ func c02PollOracle(s *sim, i int) string {
 	}
 	return fmt.Sprintf("step %d: the poll of %s answers %d, but the version transmitted last (%s, hash %s) is neither held validated nor delivered\n%s", i, f.Name, st.Status, cur.Key, h, s.trace())
 }
+
+// TestC01Held: the integrity oracle over a file that is held for its predecessor while a new
+// version of it arrives (the constellation behind repo fixes 21fb961 .. 33120df).
+func TestC01Held(t *testing.T) {
+	files := []*sFile{
+		{Key: "p1", Name: "p", Data: "PPPP", Cuts: []int64{0, 4}},
+		{Key: "b1", Name: "b", Prev: "p", Data: "CCCCDD", Cuts: []int64{0, 6}},
+		{Key: "b2", Name: "b", Prev: "p", Data: "ccccdd", Cuts: []int64{0, 4, 6}, TimeOff: 60},
+	}
+	alphabet := func(hist []sAction) []sAction {
+		var out []sAction
+		for _, f := range files {
+			for p := 0; p < len(f.Cuts)-1; p++ {
+				if histCount(hist, "recv", f.Key, p) < 1 {
+					out = append(out, sAction{Op: "recv", F: f.Key, P: p})
+				}
+			}
+		}
+		if histCount(hist, "recvbad", "", 0) < 1 {
+			out = append(out, sAction{Op: "recvbad", F: "b1", P: 0}, sAction{Op: "recvbad", F: "b2", P: 1}, sAction{Op: "recvbad", F: "p1", P: 0})
+		}
+		if histCount(hist, "poll", "", 0) < 1 {
+			out = append(out, sAction{Op: "poll", F: "b1"}, sAction{Op: "poll", F: "b2"})
+		}
+		for _, op := range []string{"restart", "adv10s", "adv30m"} {
+			if histCount(hist, op, "", 0) < 1 {
+				out = append(out, sAction{Op: op})
+			}
+		}
+		return out
+	}
+	depth := 6
+	if vh.Thorough() {
+		depth = 8
+	}
+	runSimCheck(t, "C01", "a held file superseded by a new version (E-HIST)", files, alphabet, c01Check, depth,
+		fmt.Sprintf("all histories up to length %d over: file p (1 part), file b version 1 (1 part, predecessor p) and version 2 (same size, 2 parts, predecessor p); every part once, one part damaged in transit, one poll (for either version), orderly restart, clock +11 s / +31 min", depth))
+}
